@@ -212,4 +212,23 @@ PROPS["C02"] = dict(
     assumptions=["every account a program touches is in the finite universe summed over", "enough gas at every frame (harness budgets)"],
 )
 
+PROPS["C15"] = dict(
+    lean_modules=["QuaiVerif.Props.C15"],
+    areas=[dict(name="mem", n_quick=2500, n_thorough=40000, seeds_thorough=3, n_search=8000)],
+    facts=["memory_ops"],
+    rule="a case is one of: (i) a sequence of 1-4 MSTORE / MSTORE8 / MLOAD at offsets from 0 to 2^64-1 with a gas budget from 0 to 2M, whose final memory size or "
+         "out-of-gas verdict is compared with the model; (ii) one of 20 memory-growing opcodes (incl. ETX) with offset / size operands from {0, small, 2^20..2^63, "
+         "the last 70 values below 2^64, above 2^64, around 0x1FFFFFFFE0}: peak Memory.Len() seen through the Tracer must be paid for by the gas used and nothing "
+         "may panic; (iii) a valid Transaction / Header / WorkObject (each of the 5 views) whose wire message has random sub-sets of fields cleared, byte fields "
+         "truncated / extended / emptied, and the encoding truncated / bit-flipped / spliced, decoded under recover()",
+    level_text="'If every memory-growing instruction is charged the expansion cost, then memory (in words w) always satisfies 3w + w^2/512 <= gas budget' is a Lean "
+               "theorem by induction over any instruction sequence; which opcodes declare a memorySize and whether their dynamic gas reaches memoryGasCost is "
+               "regenerated from jump_table.go / eips.go / gas_table.go and decided; the model is run against the real interpreter, which is additionally probed "
+               "per opcode at the uint64 boundaries, and the wire decoders are fuzzed structure-aware.",
+    level_note="PARTIAL: part (a) of the property (no decoder panics, memory proportional to input) is established by structure-aware fuzzing under recover() only - "
+               "there is no Lean model of the decoders; RLP / hexutil / AuxPoW donor parsers / p2p envelopes are not fuzzed yet. Known finding (open): the ETX "
+               "opcode declares memoryETX but has no dynamic gas, so its memory expansion is never charged (and a large inSize makes Memory.Resize allocate / abort).",
+    assumptions=["constant and state gas of an instruction are independent of memory size"],
+)
+
 NOT_APPLICABLE = {}
